@@ -53,6 +53,8 @@ func (e *SExpr) String() string {
 		return "(" + e.Args[0].String() + " " + e.Name + " " + e.Args[1].String() + ")"
 	case "cond":
 		return "(" + e.Args[0].String() + " ? " + e.Args[1].String() + " : " + e.Args[2].String() + ")"
+	case "let":
+		return "(let " + e.Name + " be " + e.Args[0].String() + " :: " + e.Args[1].String() + ")"
 	case "quant":
 		var vs []string
 		for _, v := range e.Vars {
@@ -366,6 +368,19 @@ func (p *sparser) primary() *SExpr {
 			return &SExpr{Kind: "bool", Name: t.v}
 		case "nil":
 			return &SExpr{Kind: "nil"}
+		case "let":
+			// let x = e :: body
+			n := p.next()
+			if n.k != "id" {
+				panic("spec parse: let expects a name in " + p.src)
+			}
+			if t2 := p.next(); t2.k != "id" || t2.v != "be" {
+				panic("spec parse: want `let x be e :: body` in " + p.src)
+			}
+			val := p.cond()
+			p.expect("::")
+			body := p.expr()
+			return &SExpr{Kind: "let", Name: n.v, Args: []*SExpr{val, body}}
 		case "forall", "exists":
 			var vars []SVar
 			for {
